@@ -153,7 +153,14 @@ def run(spec, rec):
                 rec.close("linear-residual", relerr(np.asarray(r.data)[J], ref[J]), TOL, site="Inference.linear_Poisson_residual", tags=tags)
         # with a level: entries where both model and data are at or below it are hidden, nothing else is (a zero count under a
         # model above the level stays visible in the linear residual; the Anscombe one also hides zero counts)
-        level = float(np.quantile(M[J], float(rng.choice([0.2, 0.5])))) if nJ else 0.0
+        # (the level is put strictly between two values that occur, so that "<=" does not hinge on the last bit of a folded sum)
+        vals = np.unique(np.concatenate([M[J], D[J]]))
+        gaps = np.nonzero(np.diff(vals) > 1e-6 * np.maximum(vals[1:], 1e-300))[0]
+        if len(gaps):
+            kq = int(gaps[int(rng.integers(len(gaps)))])
+            level = float(0.5 * (vals[kq] + vals[kq + 1]))
+        else:
+            level = float(vals[-1] * 2 + 1)
         for fname, hides_zero in (("linear_Poisson_residual", False), ("Anscombe_Poisson_residual", True)):
             ok, r = rec.noraise("returns", lambda: getattr(Inference, fname)(model, data, mask=level), site="Inference." + fname, tags=dict(tags, level=True))
             if ok:
